@@ -604,6 +604,22 @@ def _close(a, b, eps=EPS):
     return a == b
 
 
+def _x_expansion_close(xs, held, single):
+    """Double precision X values: each expanded value equals the held one to a few units of the last place of the value itself
+    (the run-length item absorbs a value only when it is that close to its extrapolation).  Single precision X values are held
+    and extrapolated in float32 arithmetic, whose rounding is relative to the operands - the step, not a value that happens to
+    lie next to zero: there the allowance is a few float32 units of the larger of value and neighbouring step."""
+    for i, (a, b) in enumerate(zip(xs, held)):
+        if not single:
+            if not _close(a, b, EPS):
+                return False
+            continue
+        step = max([abs(held[j + 1] - held[j]) for j in (i - 1, i) if 0 <= j < len(held) - 1] or [0.0])
+        if not (a == b or abs(a - b) <= 4 * 2.0 ** -23 * max(abs(a), abs(b), step)):
+            return False
+    return True
+
+
 def rp66_documents(ctx, src, k, cap):
     """IndexXML and ScanHTML on one RP66V1 source."""
     from TotalDepth.RP66V1 import IndexXML, ScanHTML
@@ -760,7 +776,7 @@ def check_index(rec, root, mem, model, cap, wit):
                 why = 'frame numbers expand to %r..., in-memory %r...' % (nums[:12], mf['numbers'][:12])
             elif lrsh != mf['lrsh']:
                 why = 'record positions expand to %r..., in-memory %r...' % (lrsh[:8], mf['lrsh'][:8])
-            elif len(xs) != len(mf['x']) or not all(_close(a, b, 2.0 ** -23 if mf.get('x_single') else EPS) for a, b in zip(xs, mf['x'])):
+            elif len(xs) != len(mf['x']) or not _x_expansion_close(xs, mf['x'], bool(mf.get('x_single'))):
                 why = 'X values expand to %r..., in-memory %r...' % (xs[:8], mf['x'][:8])
             elif int(parts['IFLR'].get('count')) != len(mf['numbers']) or any(int(parts[k].get('count')) != len(mf['numbers']) for k in ('FrameNumbers', 'LRSH', 'Xaxis')):
                 why = 'count attributes differ from the %d frames of the in-memory index' % len(mf['numbers'])
